@@ -26,15 +26,15 @@ def histStep (now : Int) (pat : Bytes) (count : Int) (typ : Nat) :
 
 /-- position of the (first) record named `x` -/
 def posV (x : Bytes) (v : List VEnt) : Nat := v.findIdx (fun e => e.1 == x)
-def pos (x : Bytes) (s : MState) : Nat := posV x (view s)
+def pos (x : Bytes) (s : MState) : Nat := s.index.findIdx (fun e => e.1 == x)
 
-/-- on the view: `x` is indexed, eligible, and not the last record -/
+/-- on the view: `x` is indexed and eligible -/
 def StableV (now : Int) (pat : Bytes) (typ : Nat) (x : Bytes) (v : List VEnt) : Prop :=
-  posV x v + 1 < v.length ∧ ∃ e, v[posV x v]? = some e ∧ keep now pat typ e = true
+  ∃ e, v[posV x v]? = some e ∧ keep now pat typ e = true
 
 /-- `x` is there to be found in store `s` -/
 def Stable (now : Int) (pat : Bytes) (typ : Nat) (x : Bytes) (s : MState) : Prop :=
-  AList.Sorted s.index ∧ (s.index.length : Int) < I63 ∧ StableV now pat typ x (view s)
+  AList.Sorted s.index ∧ (s.index.length : Int) < I63 ∧ StableV now pat typ x (view s typ)
 
 /-- the position of `x` never decreases along the history -/
 def Mono (x : Bytes) : List MState → Prop
@@ -68,15 +68,20 @@ theorem mem_kept_window (now : Int) (pat : Bytes) (typ : Nat) (v : List VEnt) (i
   have : p + (i - p) = i := by omega
   rw [this, he]
 
-theorem stable_of_view_eq {now : Int} {pat : Bytes} {typ : Nat} {x : Bytes} {s s' : MState}
-    (h : SameButCount s s') (hs : Stable now pat typ x s) : Stable now pat typ x s' := by
+theorem posV_view (x : Bytes) (s : MState) (typ : Nat) : posV x (view s typ) = pos x s := by
+  unfold posV pos view viewOf
+  rw [List.findIdx_map]
+  rfl
+
+theorem stable_of_frame {now : Int} {pat : Bytes} {typ : Nat} {x : Bytes} {s s' : MState}
+    (h : ScanFrame typ s s') (hs : Stable now pat typ x s) : Stable now pat typ x s' := by
   obtain ⟨h1, h2, h3⟩ := hs
   refine ⟨h.sorted h1, ?_, ?_⟩
-  · have : s'.index.length = s.index.length := by
-      have := congrArg List.length h.2
-      simpa using this
-    rw [this]; exact h2
-  · rw [h.view]; exact h3
+  · rw [h.length]; exact h2
+  · rw [h.view_eq]; exact h3
+
+theorem pos_of_frame {typ : Nat} {x : Bytes} {s s' : MState} (h : ScanFrame typ s s') : pos x s' = pos x s := by
+  rw [← posV_view x s' typ, ← posV_view x s typ, h.view_eq]
 
 /-- the core of `scan_stable`: as long as the call about to be made starts at or before the
     position of `x`, `x` will be reported before the iteration ends -/
@@ -90,26 +95,31 @@ theorem visited_of_start_le (now : Int) (pat : Bytes) (typ : Nat) (x : Bytes) (k
   | zero => intro s hist c _ _ _ _ ht; simp [iterateFrom_zero] at ht
   | succ f ih =>
     intro s hist c h0 hst hmono hstart hterm
-    obtain ⟨hsorted, hlen, hnl, e, he, hkeep⟩ := hst s List.mem_cons_self
-    have hvl := view_length s
-    have hpos : pos x s = posV x (view s) := rfl
-    have hcn : c < (view s).length := by
+    obtain ⟨hsorted, hlen, e, he, hkeep⟩ := hst s List.mem_cons_self
+    have hvl := view_length s typ
+    have hpv := posV_view x s typ
+    rw [hpv] at he
+    have hplt : pos x s < (view s typ).length := by
+      rcases Nat.lt_or_ge (pos x s) (view s typ).length with h' | h'
+      · exact h'
+      · rw [List.getElem?_eq_none h'] at he; cases he
+    have hcn : c ≤ (view s typ).length := by
       unfold startOf at hstart; omega
     have hstep : histStep now pat (k : Int) typ (s, hist) c =
         ((nextStore hist (scanStep now pat (k : Int) typ s c).1, hist.tail),
-          (if (view s).length - startOf c ≤ k then ((view s).length : Int) else ((startOf c + k + 1 : Nat) : Int)),
-          kept now pat typ (((view s).drop (startOf c)).take k)) := by
+          (if (view s typ).length - startOf c ≤ k then 0 else ((startOf c + k + 1 : Nat) : Int)),
+          kept now pat typ (((view s typ).drop (startOf c)).take k)) := by
       simp only [histStep]
-      rw [scanStep_out, scanPure_lim (view s) now pat typ (by rw [hvl]; exact hlen) c k hk h0 hcn]
+      rw [scanStep_out, scanPure_lim (view s typ) now pat typ (by rw [hvl]; exact hlen) c k hk h0 hcn (by omega)]
     by_cases hwin : pos x s < startOf c + k
     · -- `x` is inside the window of this call
-      have hin : x ∈ kept now pat typ (((view s).drop (startOf c)).take k) := by
-        have := mem_kept_window now pat typ (view s) (pos x s) (startOf c) k e he hkeep hstart hwin
-        rwa [posV_name x (view s) e he] at this
+      have hin : x ∈ kept now pat typ (((view s typ).drop (startOf c)).take k) := by
+        have := mem_kept_window now pat typ (view s typ) (pos x s) (startOf c) k e he hkeep hstart hwin
+        rwa [posV_name x (view s typ) e (by rw [hpv]; exact he)] at this
       apply mem_visited_first
       rw [hstep]; exact hin
     · -- the window ends before `x`: the next call starts at the end of the window
-      have hbig : ¬ ((view s).length - startOf c ≤ k) := by omega
+      have hbig : ¬ ((view s typ).length - startOf c ≤ k) := by omega
       have hne : ((startOf c + k + 1 : Nat) : Int) ≠ 0 := by omega
       rw [if_neg hbig] at hstep
       rw [iterateFrom_next _ f (s, hist) c _ _ _ hstep hne] at hterm ⊢
@@ -119,14 +129,11 @@ theorem visited_of_start_le (now : Int) (pat : Bytes) (typ : Nat) (x : Bytes) (k
       cases hist with
       | nil =>
         simp only [nextStore, List.tail_nil] at hterm ⊢
-        have hframe := scan_frame s hsorted now c pat (k : Int) typ
+        have hframe : ScanFrame typ s (scanStep now pat (k : Int) typ s c).1 := scan_frame s hsorted now c pat (k : Int) typ
         have hst' : Stable now pat typ x (scanStep now pat (k : Int) typ s c).1 :=
-          stable_of_view_eq hframe ⟨hsorted, hlen, hnl, e, he, hkeep⟩
+          stable_of_frame hframe (hst s List.mem_cons_self)
         apply ih _ [] _ (by omega) (by intro t ht; simp at ht; subst ht; exact hst') trivial
-        · rw [hso]
-          have : pos x (scanStep now pat (k : Int) typ s c).1 = pos x s := by
-            unfold pos; rw [scanStep_view now pat k typ s c hsorted]
-          rw [this]; omega
+        · rw [hso, pos_of_frame hframe]; omega
         · exact hterm
       | cons t ts =>
         simp only [nextStore, List.tail_cons] at hterm ⊢
@@ -135,12 +142,6 @@ theorem visited_of_start_le (now : Int) (pat : Bytes) (typ : Nat) (x : Bytes) (k
         · exact hterm
 
 /-! ## sufficient conditions: what keeps the position of `x` from decreasing -/
-
-theorem posV_viewOf (x : Bytes) (idx : AList Meta) :
-    posV x (viewOf idx) = idx.findIdx (fun e => e.1 == x) := by
-  unfold posV viewOf
-  rw [List.findIdx_map]
-  rfl
 
 /-- inserting (or overwriting) another key never moves `x` towards the front -/
 theorem pos_set_ge (x key : Bytes) (m : Meta) (hne : key ≠ x) : ∀ (idx : AList Meta),
